@@ -26,7 +26,7 @@ ASSUMPTIONS = ['RefDiscrete (sim/ref/discrete.py) is the README definition; prev
                'time-stamps strictly increasing']
 REAL = common.REAL_ALL
 STUBS = common.STUBS_ALL
-PROBES = ['one_sample_trace', 'window_longer_than_trace', 'result_starts_with_inf', 'same_name_twice', 'negative_literal',
+PROBES = ['integer_samples_above_2^53', 'one_sample_trace', 'window_longer_than_trace', 'result_starts_with_inf', 'same_name_twice', 'negative_literal',
           'combined_class']
 
 
@@ -39,7 +39,7 @@ def gen(rng, tier):
     ast = sg.gen_formula(rng, cfg)
     text = 'out = ' + sg.to_text(ast, sg.Spelling(rng)) + (';' if rng.random() < 0.8 else '')
     n = rng.choice([1, 1, 2, 2, 3, 4, 5, 6, 8, 10, 12] + ([16, 20, 24] if big else []))
-    data = world.gen_trace(rng, vars_, n)
+    data = world.gen_trace(rng, vars_, n, p_bigint=0.06)
     clocks = [world.perfect_clock(n)]
     fired = {}
     for _ in range(rng.randint(1, 2)):
@@ -63,6 +63,8 @@ def run(sc):
         r.discarded = True
         return r
     r.faults.update(sc.get('fired', {}))
+    if any(isinstance(x, int) and abs(x) > 2 ** 53 for v in data for x in data[v]):
+        r.probes['integer_samples_above_2^53'] += 1
     text = common.text_of(sc)
     desc = {'cls': sc.get('cls', 'dt_off'), 'vars': common.var_decls(sc['vars']), 'spec': text}
     outs = []
